@@ -5,6 +5,8 @@
 #include "ccl/rslang/RSErrorCodes.hpp"
 #include "ccl/cclMeta.hpp"
 
+#include <limits>
+
 namespace ccl::rslang::detail {
 
 //! Abstract Lexer
@@ -22,6 +24,9 @@ protected:
 public:
   TokenID lex() {
     lastRead = this->BaseT().DoLex();
+    if (!NumbersAreRepresentable()) {
+      lastRead = TokenID::INTERRUPT;
+    }
     return lastRead;
   }
 
@@ -68,6 +73,30 @@ public:
   }
 
 private:
+  //! Numbers of the token text should fit token data: int32_t literal, Index for projections and filters
+  [[nodiscard]] bool NumbersAreRepresentable() const {
+    switch (lastRead) {
+    default: return true;
+    case TokenID::LIT_INTEGER: return NumbersFit(std::numeric_limits<int32_t>::max());
+    case TokenID::SMALLPR:
+    case TokenID::BIGPR:
+    case TokenID::FILTER: return NumbersFit(std::numeric_limits<Index>::max());
+    }
+  }
+  [[nodiscard]] bool NumbersFit(const int64_t maxValue) const {
+    int64_t value = 0;
+    for (const auto symbol : Text()) {
+      if (symbol < '0' || symbol > '9') {
+        value = 0;
+      } else {
+        value = value * 10 + (symbol - '0'); // NOLINT: ignore magic number
+        if (value > maxValue) {
+          return false;
+        }
+      }
+    }
+    return true;
+  }
   [[nodiscard]] TokenData ToInt() const {
     return TokenData{ static_cast<int32_t>(std::atol(Text().c_str())) }; // TODO: strtol
   }
